@@ -83,7 +83,7 @@ def udpSched (s : String) : Option (List UTok) :=
   if s == "-" then some [] else
   s.toList.mapM (fun c => match c with
     | 'u' => some UTok.u | 't' => some UTok.t | 'U' => some UTok.uh | 'T' => some UTok.th
-    | 'w' => some UTok.w | 'v' => some UTok.v | _ => none)
+    | 'w' => some UTok.w | 'v' => some UTok.v | 's' => some UTok.s | _ => none)
 
 structure TcpCase where
   a : EP
@@ -130,8 +130,8 @@ structure UdpLine where
   sizes : List Nat
   sched : List UTok
 
-def parseUdp : List String → Option UdpLine
-  | "udp" :: "U" :: ut :: k :: ts => do
+def parseUdpBody : List String → Option UdpLine
+  | "U" :: ut :: k :: ts => do
     let utail ← tlOf ut
     let k ← k.toNat?
     let (uevs, ts) ← parseUEvs k ts
@@ -155,6 +155,13 @@ def parseUdp : List String → Option UdpLine
         | _ => none
       | _ => none
     | _ => none
+  | _ => none
+
+/-- `udp …`: scripted doubles on both sides; `udpv …`: the local side is the real asynchronous
+`mapping.UDPVirtualConn` (token `s` = its send loop sends the next queued datagram). -/
+def parseUdp : List String → Option UdpLine
+  | "udp" :: ts => parseUdpBody ts
+  | "udpv" :: ts => parseUdpBody ts
   | _ => none
 
 def UdpLine.case (l : UdpLine) : UdpCase :=
@@ -236,6 +243,10 @@ def runModel (ts : List String) : String :=
     match parseUdp ts with
     | some l => udpObsStr (udpObs (udpRun .repaired l.case (udpComplete l.case l.sched)))
     | none => "bad-case"
+  | "udpv" :: _ =>
+    match parseUdp ts with
+    | some l => udpObsStr (udpObsV (udpRun .repaired l.case (udpComplete l.case l.sched)))
+    | none => "bad-case"
   | "s5" :: _ =>
     match parseS5Line ts with
     | some l =>
@@ -255,6 +266,13 @@ def runHolds (caseToks obsToks : List String) : String :=
       | none => "false"
     | none => "bad-case"
   | "udp" :: _ =>
+    match parseUdp caseToks with
+    | some l =>
+      match parseUdpObs obsToks with
+      | some o => boolStr (holdsUdp l.spec o)
+      | none => "false"
+    | none => "bad-case"
+  | "udpv" :: _ =>
     match parseUdp caseToks with
     | some l =>
       match parseUdpObs obsToks with
